@@ -151,8 +151,24 @@ def oracle(case: dict) -> Outcome:
     kw = {x: k[x] for x in k if x not in ("beta1", "beta2")}
     got: Any
     err = ""
+    as_groups = case.get("params") == "groups"
+    if as_groups:
+        # parameters passed as param-group dicts in which every group overrides the varied hyperparameters with the (valid) baseline values: the
+        # constructor's own arguments are still outside / inside the documented domain exactly as before
+        base = BASES[case["base"]]
+        ov: dict = {}
+        for name in changed:
+            if name in ("beta1", "beta2"):
+                ov["betas"] = (base["beta1"], base["beta2"])
+            else:
+                ov[name] = base[name]
+        p2 = torch.nn.Parameter(torch.zeros(2))
+        plist: Any = [dict(params=[p], **ov), dict(params=[p2], **ov)]
+        out.classes.append("param_groups_override_the_varied_arguments")
+    else:
+        plist = [p]
     try:
-        o = DistributedShampoo([p], betas=(k["beta1"], k["beta2"]), **kw)
+        o = DistributedShampoo(plist, betas=(k["beta1"], k["beta2"]), **kw)
         got = True
     except ValueError as e:
         got = False
@@ -169,7 +185,11 @@ def oracle(case: dict) -> Outcome:
         else:
             out.fail("C17.wrong_exception", f"outside the domain raises {got} instead of ValueError", f"{desc!r} base {case['base']}: {err}")
         return out
-    if got is True:
+    if got is True and as_groups:
+        d = o.defaults
+        if d.get("weight_decay") != k["weight_decay"] and k["weight_decay"] == k["weight_decay"]:
+            out.fail("C17.defaults.verbatim", "weight_decay default is not stored verbatim", f"{desc!r}")
+    elif got is True:
         g = o.param_groups[0]
         b3 = k["beta1"] if k["beta3"] == -1 else k["beta3"]
         stp = k["precondition_frequency"] if k["start_preconditioning_step"] == -1 else k["start_preconditioning_step"]
@@ -209,6 +229,7 @@ def enumerate_grid(tier: str, i: int, n: int) -> Iterator[dict]:
                 idx += 1
                 if idx % n == i:
                     yield {"base": base, "set": [[a, ia]]}
+                    yield {"base": base, "set": [[a, ia]], "params": "groups"}
         for a, b in itertools.combinations(NAMES, 2):
             for ia in range(len(TABLES[a])):
                 for ib in range(len(TABLES[b])):
@@ -233,7 +254,7 @@ def strategy_random():
                 return st.one_of(ints, st.lists(st.integers(-2, 6), max_size=5)).map(lambda v: {"v": v})
             return ints.map(lambda v: {"v": v})
 
-        return {"base": draw(st.integers(0, len(BASES) - 1)),
+        return {"base": draw(st.integers(0, len(BASES) - 1)), "params": draw(st.sampled_from(["list", "list", "groups"])),
                 "set": [[nm, draw(st.one_of(st.integers(0, len(TABLES[nm]) - 1), value(nm)))] for nm in names]}
 
     return case()
